@@ -62,6 +62,11 @@ pub struct Profile {
     pub long_strings: bool,
     /// literals encode their creation site, so a wrong binding changes the output (C04)
     pub site_tagged: bool,
+    /// weight of "read a variable, then call a function that overwrites it, in ONE expression"
+    pub w_clobber: u32,
+    /// weight of unused declarations whose right-hand side misuses a dynamically typed value
+    /// (reported runtime error, not a crash): only for the differential C03 check
+    pub w_illtyped_dead: u32,
 }
 
 impl Profile {
@@ -90,12 +95,15 @@ impl Profile {
             dump_arrays: false,
             long_strings: true,
             site_tagged: false,
+            w_clobber: 2,
+            w_illtyped_dead: 0,
         }
     }
     /// strings/arrays flowing through loops, calls, returns, captured reassignment (C02)
     pub fn reclaim() -> Profile {
         Profile {
             name: "reclaim",
+            w_clobber: 10,
             w_make: 18,
             w_assign: 22,
             w_shout: 18,
@@ -114,6 +122,7 @@ impl Profile {
     pub fn prune() -> Profile {
         Profile {
             name: "prune",
+            w_illtyped_dead: 6,
             w_make: 22,
             w_assign: 18,
             w_shout: 12,
@@ -155,6 +164,7 @@ impl Profile {
     pub fn arrays() -> Profile {
         Profile {
             name: "arrays",
+            w_clobber: 12,
             w_make: 16,
             w_assign: 14,
             w_shout: 6,
@@ -194,6 +204,8 @@ pub struct Features {
     pub unused_decls: u32,
     pub nested_functions: u32,
     pub array_copies: u32,
+    pub clobber_patterns: u32,
+    pub illtyped_dead: u32,
 }
 
 #[derive(Debug, Clone)]
@@ -229,6 +241,9 @@ struct Func {
     state: FState,
     /// function context (index into `fn_stack`) in which the defining block lives
     ctx: usize,
+    /// variables of enclosing scopes this function (transitively) assigns or mutates:
+    /// (scope index, variable name)
+    writes: Vec<(usize, String)>,
 }
 
 #[derive(Debug, Clone)]
@@ -348,8 +363,27 @@ impl Gen<'_> {
             self.scopes[r.0].vars[r.1].captured = true;
             if write {
                 self.features.capture_writes += 1;
+                let name = self.scopes[r.0].vars[r.1].name.clone();
+                self.note_capture_write(r.0, &name);
             } else {
                 self.features.capture_reads += 1;
+            }
+        }
+    }
+
+    /// Remembers, for every function being generated whose own scopes start above `scope`,
+    /// that it writes this outer variable.
+    fn note_capture_write(&mut self, scope: usize, name: &str) {
+        let owners: Vec<(usize, usize)> = self
+            .fn_stack
+            .iter()
+            .filter(|c| c.base_scope > scope)
+            .filter_map(|c| c.me)
+            .collect();
+        for (si, fi) in owners {
+            let w = &mut self.scopes[si].funcs[fi].writes;
+            if !w.iter().any(|(s2, n2)| *s2 == scope && n2 == name) {
+                w.push((scope, name.to_string()));
             }
         }
     }
@@ -594,6 +628,10 @@ impl Gen<'_> {
         let f = self.scopes[si].funcs[fi].clone();
         if f.state == FState::Planned {
             self.features.hoisted_forward_calls += 1;
+        }
+        // a caller inherits the capture writes of its callee
+        for (ws, wn) in &f.writes {
+            self.note_capture_write(*ws, wn);
         }
         let mut args = Vec::new();
         for (k, (_, pty)) in f.params.iter().enumerate() {
@@ -1054,6 +1092,129 @@ impl Gen<'_> {
         r
     }
 
+    /// `shout([<read of v>, <call of a function that overwrites v>])`: the value read first must
+    /// survive the overwrite that happens later in the same expression.
+    fn stmt_clobber(&mut self, out: &mut Block) {
+        let callable = self.callable_funcs(None);
+        let visible = self.visible_vars();
+        let mut cands: Vec<(usize, usize, bool, (usize, usize))> = Vec::new();
+        for (si, fi, dec) in callable {
+            for (ws, wn) in &self.scopes[si].funcs[fi].writes {
+                if let Some(r) = visible.iter().find(|(s2, v2)| s2 == ws && self.scopes[*s2].vars[*v2].name == *wn) {
+                    cands.push((si, fi, dec, *r));
+                }
+            }
+        }
+        if cands.is_empty() {
+            return self.stmt_shout(out);
+        }
+        let (si, fi, dec, r) = cands[self.tape.choose(cands.len())];
+        let v = self.var(r).clone();
+        self.touch(r, false);
+        self.features.clobber_patterns += 1;
+        // the read: the variable itself, an element, or a derived value
+        let read = match &v.ty {
+            Ty::Arr(elem) => match self.tape.choose(4) {
+                0 => Expr::Var(v.name.clone()),
+                1 => {
+                    let i = self.safe_index(v.min_len);
+                    Expr::index(Expr::Var(v.name.clone()), i)
+                }
+                2 if matches!(**elem, Ty::Str | Ty::Num) => {
+                    Expr::method(Expr::Var(v.name.clone()), "join", vec![Expr::str("|")])
+                }
+                _ => Expr::Array(vec![Expr::Var(v.name.clone())]),
+            },
+            Ty::Str => match self.tape.choose(3) {
+                0 => Expr::Var(v.name.clone()),
+                1 => Expr::bin(BinOp::Add, Expr::Var(v.name.clone()), Expr::str("+")),
+                _ => Expr::method(Expr::Var(v.name.clone()), "to_uppercase", vec![]),
+            },
+            _ => Expr::Var(v.name.clone()),
+        };
+        let call = self.make_call(si, fi, dec, 1);
+        let fret = self.scopes[si].funcs[fi].ret.clone();
+        let e = match self.tape.choose(4) {
+            // concatenation where the types allow it
+            0 if v.ty == Ty::Str && matches!(fret, Ty::Str | Ty::Num) => Expr::bin(BinOp::Add, read, call),
+            // receiver evaluated before the argument
+            1 if matches!(&v.ty, Ty::Arr(e) if matches!(**e, Ty::Str | Ty::Num)) && fret == Ty::Str => {
+                Expr::method(Expr::Var(v.name.clone()), "join", vec![call])
+            }
+            _ => Expr::Array(vec![read, call]),
+        };
+        if self.tape.chance(1, 3) {
+            // store the pair first (promotion path), then observe it
+            let t = self.fresh("t");
+            out.push(Stmt::Make(t.clone(), Some(e)));
+            out.push(Stmt::Expr(Expr::call("shout", vec![Expr::Var(t)])));
+        } else {
+            out.push(Stmt::Expr(Expr::call("shout", vec![e])));
+        }
+        // and the variable afterwards
+        out.push(Stmt::Expr(Expr::call("shout", vec![Expr::Var(v.name)])));
+    }
+
+    /// An unused declaration whose right-hand side raises a *reported* runtime error when it is
+    /// evaluated (a dynamically typed value that does not fit). Not intent-type correct on
+    /// purpose: only the pruning differential (C03) may use it.
+    fn stmt_illtyped_dead(&mut self, out: &mut Block) {
+        // parameters and array elements are dynamically typed for the static checker
+        let params: Vec<(usize, usize)> = if self.ctx().me.is_some() {
+            let base = self.ctx().base_scope;
+            (0..self.scopes[base].vars.len()).map(|i| (base, i)).filter(|r| !self.var(*r).reserved).collect()
+        } else {
+            Vec::new()
+        };
+        let arrays = self.vars_of(&|v| matches!(v.ty, Ty::Arr(_)) && v.min_len > 0);
+        let u = self.fresh("u");
+        let e = if !params.is_empty() && self.tape.chance(2, 3) {
+            let r = params[self.tape.choose(params.len())];
+            let p = self.var(r).clone();
+            let pv = Expr::Var(p.name.clone());
+            match &p.ty {
+                Ty::Num => match self.tape.choose(3) {
+                    0 => Expr::method(pv, "len", vec![]),
+                    1 => Expr::un(UnOp::Not, pv),
+                    _ => Expr::index(pv, Expr::Num(0.0)),
+                },
+                Ty::Str => match self.tape.choose(4) {
+                    0 => Expr::bin(BinOp::Minus, pv, Expr::Num(1.0)),
+                    1 => Expr::un(UnOp::Neg, pv),
+                    2 => Expr::method(pv, "slice", vec![Expr::Num(1.0)]),
+                    _ => Expr::method(pv, "abs", vec![]),
+                },
+                Ty::Bool => match self.tape.choose(2) {
+                    0 => Expr::bin(BinOp::Times, pv, Expr::Num(2.0)),
+                    _ => Expr::method(pv, "len", vec![]),
+                },
+                Ty::Null => match self.tape.choose(2) {
+                    0 => Expr::method(pv, "len", vec![]),
+                    _ => Expr::bin(BinOp::Add, pv, Expr::Num(1.0)),
+                },
+                Ty::Arr(_) => match self.tape.choose(3) {
+                    0 => Expr::bin(BinOp::Minus, pv, Expr::Num(1.0)),
+                    1 => Expr::method(pv, "to_uppercase", vec![]),
+                    _ => Expr::method(Expr::str("abc"), "find", vec![pv]),
+                },
+            }
+        } else if !arrays.is_empty() {
+            let r = arrays[self.tape.choose(arrays.len())];
+            self.touch(r, false);
+            let a = self.var(r).clone();
+            let el = Expr::index(Expr::Var(a.name.clone()), Expr::Num(0.0));
+            match a.ty {
+                Ty::Arr(ref e) if **e == Ty::Num => Expr::method(el, "len", vec![]),
+                Ty::Arr(ref e) if **e == Ty::Str => Expr::bin(BinOp::Times, el, Expr::Num(2.0)),
+                _ => Expr::un(UnOp::Neg, el),
+            }
+        } else {
+            return self.stmt_unused(out);
+        };
+        self.features.illtyped_dead += 1;
+        out.push(Stmt::Make(u, Some(e)));
+    }
+
     fn nested_block(&mut self) -> Block {
         self.depth += 1;
         let b = self.with_budget_cap(|g| g.block(false));
@@ -1197,6 +1358,7 @@ impl Gen<'_> {
                 hoisted,
                 state: FState::Planned,
                 ctx,
+                writes: Vec::new(),
             });
         }
     }
@@ -1359,6 +1521,8 @@ impl Gen<'_> {
                 p.w_redecl,
                 if dead { 0 } else { p.w_jump },
                 p.w_unused,
+                p.w_clobber,
+                p.w_illtyped_dead,
             ];
             match self.tape.weighted(&w) {
                 0 => self.stmt_make(&mut out),
@@ -1383,7 +1547,9 @@ impl Gen<'_> {
                         }
                     }
                 }
-                _ => self.stmt_unused(&mut out),
+                10 => self.stmt_unused(&mut out),
+                11 => self.stmt_clobber(&mut out),
+                _ => self.stmt_illtyped_dead(&mut out),
             }
             if dead && self.tape.chance(1, 2) {
                 break;
